@@ -327,6 +327,8 @@ func ruleConsoleLen(r *Run, p *Prog) {
 	if !r.Anchor(w != nil, "LEN", "ConsoleWriter.Write") {
 		return
 	}
+	// helpers without results cannot decide what Write returns: they stay calls (and keep the path count small)
+	w = p.View(w, "keep-procedures", func(g *ssa.Function) bool { return g.Signature.Results().Len() == 0 })
 	paths, complete := enumPaths(w, 2, 20000)
 	if !complete {
 		r.Fail("LEN", FnName(w)+"/paths", p.Pos(w.Pos()), "cannot enumerate paths")
